@@ -668,6 +668,10 @@ pub(super) fn add(
         let bits = operand_storing_width(&instruction.operands()[0])?;
         let lhs = operand_load(block, &instruction.operands()[1], bits)?;
         let rhs = operand_load(block, &instruction.operands()[2], bits)?;
+        if lhs.bits() != rhs.bits() {
+            // e.g. SVE `add z0.b, z0.b, #1`: a vector on one side, an immediate on the other
+            return Err(unsupported());
+        }
 
         // perform operation (per element for `add v0.4s, v1.4s, v2.4s`)
         let src = match vector_arrangement(&instruction.operands()[0]) {
@@ -700,6 +704,10 @@ pub(super) fn adds(
         let bits = operand_storing_width(&instruction.operands()[0])?;
         let lhs = operand_load(block, &instruction.operands()[1], bits)?;
         let rhs = operand_load(block, &instruction.operands()[2], bits)?;
+        if lhs.bits() != rhs.bits() {
+            // e.g. SVE `add z0.b, z0.b, #1`: a vector on one side, an immediate on the other
+            return Err(unsupported());
+        }
 
         // perform operation
         let result = il::Expression::add(lhs.clone(), rhs.clone()).unwrap();
@@ -1456,6 +1464,10 @@ pub(super) fn sub(
         let bits = operand_storing_width(&instruction.operands()[0])?;
         let lhs = operand_load(block, &instruction.operands()[1], bits)?;
         let rhs = operand_load(block, &instruction.operands()[2], bits)?;
+        if lhs.bits() != rhs.bits() {
+            // e.g. SVE `add z0.b, z0.b, #1`: a vector on one side, an immediate on the other
+            return Err(unsupported());
+        }
 
         // perform operation (per element for `sub v0.4s, v1.4s, v2.4s`)
         let src = match vector_arrangement(&instruction.operands()[0]) {
@@ -1488,6 +1500,10 @@ pub(super) fn subs(
         let bits = operand_storing_width(&instruction.operands()[0])?;
         let lhs = operand_load(block, &instruction.operands()[1], bits)?;
         let rhs = operand_load(block, &instruction.operands()[2], bits)?;
+        if lhs.bits() != rhs.bits() {
+            // e.g. SVE `add z0.b, z0.b, #1`: a vector on one side, an immediate on the other
+            return Err(unsupported());
+        }
 
         // perform operation
         let result = il::Expression::sub(lhs.clone(), rhs.clone()).unwrap();
